@@ -6,7 +6,9 @@ CHECK = {
     "assumptions": [
         "well-formedness is judged by encoders / a reference model written from the Connect, gRPC (PROTOCOL-HTTP2) and gRPC-Web specifications and RFC 7230 / 8259 / 4648, not from wire_details.go",
         "malformation classes are those the property names and wire_details.go claims to report; each mutant differs from a silent base rendering in exactly one place, and 'flagged' means at least one feedback message (not a particular wording)",
-        "the reference server is exercised in-process through RunInReferenceMode on loopback, plain text, HTTP/1.1 and h2c, identity encoding; TLS, HTTP/3 and compressed error bodies are outside this check",
+        "the reference server is exercised in-process through RunInReferenceMode on loopback, plain text, HTTP/1.1 and h2c, identity encoding; TLS and HTTP/3 are outside this check; gzip-compressed unary error bodies and end-stream messages are exercised over a scripted transport only (stages histories / sizes)",
+        "histories: the verdict about a response is taken to be a function of that response alone (the property speaks about 'a well-formed body / message / block', not about what was examined before); histories are bounded to one (thorough: two) abnormal response(s) + the judged response + two neutral calls, in one process on one goroutine with GOMAXPROCS=1 and the collector off, which makes the hand-off of recycled (sync.Pool) objects between consecutive calls deterministic; state that survives only across goroutines / Ps, or only after a collection, is outside the bound",
+        "sizes: thresholds are looked for at powers of two 2^10..2^20 (thorough 2^22), one byte (thorough two) either side, measured on the examined unit (error body, end-stream payload, trailer block, field set rendered as lines) and, for enveloped formats, also on the envelope; limits at other values or beyond 1 MiB (4 MiB) are outside the bound; the large detail is a StringValue (go-cmp walks a bytes field element by element, 0.6 s per 256 KiB)",
         "arbitrary input is bounded: all byte strings of length <= 2, all strings of length <= 4 (quick) / 5 (thorough) over a 13-symbol JSON/trailer alphabet, plus typed grammars; longer arbitrary input is outside the bound (DESIGN.md §5)",
         "detail types are registered ones (the property's quantifier); unregistered types with a debug member are exercised for robustness only",
     ],
@@ -25,7 +27,18 @@ CHECK = {
                 "unknown key, wrong JSON type per member, bad type name, padded/invalid base64, truncation at every byte, LF/CR for CRLF, missing final CRLF, blank line, upper-case key, "
                 "every illegal byte at every position of field names and values, bad percent-encoding, unescaped bytes, status missing/duplicated/non-numeric/out of range, "
                 "details-bin disagreeing in code or message, HTTP trailers outside gRPC) of 3-5 base renderings must draw >= 1 message. (4) Typed grammars of all member forms, judged by a model; "
-                "every JSON document up to a nesting bound into checkNoDuplicateKeys. (5) All short byte strings into 19 entry points: never a panic.",
+                "every JSON document up to a nesting bound into checkNoDuplicateKeys. (5) All short byte strings into 19 entry points: never a panic. "
+                "(6) histories (round 3): the complete capture pipeline (newWireCaptureTransport -> tracer.TracingRoundTripper -> body readers -> examineWireDetails) over a scripted "
+                "http.RoundTripper, no socket: every abnormal first response (every truncation, byte by byte, of the end-stream envelope of Connect and gRPC-Web base messages, plain and gzip-compressed, "
+                "x {EOF, read error, reader closes early} x delivery in portions of all / 1 (/ 3) bytes; length prefix announcing more than arrives; complete message followed by a partial one; "
+                "complete but malformed; compressed flag on garbage; truncated data message; truncated unary error; failed round trip: 3577 quick) x every judged second response "
+                "(11 well-formed, 3 malformed; 16 with the byte-by-byte deliveries) = 57232 histories quick, each followed by two neutral calls; thorough adds more bases / portions and all histories "
+                "with two abnormal responses over a 48-element alphabet. Oracle: the judged response and the neutral calls draw exactly the feedback they draw on their own "
+                "(none if well-formed, >= 1 message if malformed). "
+                "(7) sizes (round 3): well-formed unary error bodies (identity and gzip Content-Encoding), Connect end-stream messages (plain and gzip-compressed envelope), gRPC-Web trailer blocks, "
+                "gRPC-Web trailers-only headers, gRPC HTTP trailers and trailers-only headers measuring exactly 2^k-1, 2^k, 2^k+1 bytes (enveloped formats also 2^k-6..2^k-4) for k = 10..20 "
+                "(thorough: +-2 and k <= 22, also delivered in 1000-byte portions), bulk from a long message or from one large detail, rendered by spec encoders, connect-go's ErrorWriter and the "
+                "repository's trailer encoders (1122 cases quick), through the same complete pipeline: no feedback.",
         "note": "Oracle independent of the examiners; well-formed = what the specs allow (a raw leading/trailing blank in grpc-message is allowed by the gRPC grammar). "
                 "The unexported server encoders are reached through a build-tag-guarded export shim that exists only in the overlay (harness/referenceclient/c13_srvexport.go).",
         "design_ref": "DESIGN.md §2.2, §4 C13, §5",
@@ -34,7 +47,8 @@ CHECK = {
         {
             "name": "c13-enum", "pkg": RC,
             "harness": [H + "c13_test.go", H + "c13_common_test.go", H + "c13_wellformed_test.go",
-                        H + "c13_server_test.go", H + "c13_malformed_test.go", H + "c13_robust_test.go"],
+                        H + "c13_server_test.go", H + "c13_malformed_test.go", H + "c13_robust_test.go",
+                        H + "c13_history_test.go"],
             # overlay-only file in the server package: exported wrappers of grpcStatusTrailers / grpcWebStatusEndStream
             "extra_files": {"internal/app/referenceserver/zz_verif_c13_srvexport.go": "harness/referenceclient/c13_srvexport.go"},
             "test": "^TestVerifC13$",
